@@ -324,11 +324,11 @@ impl Fz {
         let dir = rpc::fresh_dir("C09");
         let mut inst = Inst::open(&dir).ok()?;
         inst.timeout = Duration::from_secs(25);
-        let mut st = Tmpl { tool: "0x00000000000000000000000000000000000000aa".into(), tx_hash: hist::ZERO_HASH.into(), block_hash: hist::ZERO_HASH.into(), fresh_hash: format!("0x{:064x}", 0xf09u64), raw_tx: "0x".into(), next_height: 0, n: 0 };
+        let mut st = Tmpl { tool: "0x00000000000000000000000000000000000000aa".into(), tx_hash: hist::ZERO_HASH.into(), block_hash: hist::ZERO_HASH.into(), fresh_hash: crate::hist::bh((0xf09u64) as u64), raw_tx: "0x".into(), next_height: 0, n: 0 };
         let mut open_block = None;
         if state != "empty" {
             inst.call("brc20_initialise", json!({"genesis_hash": hist::ZERO_HASH, "genesis_timestamp": 1, "genesis_height": 0}));
-            let bh = format!("0x{:064x}", 0xc09u64);
+            let bh = crate::hist::bh((0xc09u64) as u64);
             let r = inst.call("brc20_deploy", json!({"from_pkscript": PK, "data": hist::hx(&asm::tool_init()), "timestamp": 2, "hash": bh, "tx_idx": 0, "inscription_id": "c12-setup-tool", "inscription_byte_len": 100000, "op_return_tx_id": hist::ZERO_HASH}));
             st.tool = hist::created_address(&r)?;
             st.tx_hash = hist::receipts_in(&r)[0]["transactionHash"].as_str()?.to_string();
@@ -349,7 +349,7 @@ impl Fz {
                     inst.call("brc20_clearCaches", json!([]));
                 }
                 "mid-block" => {
-                    let h = format!("0x{:064x}", 0x09b10cu64 + rng.below(1000));
+                    let h = crate::hist::bh((0x09b10cu64 + rng.below(1000)) as u64);
                     inst.call("brc20_deposit", json!({"to_pkscript": PK, "ticker": "ordi", "amount": "0x1", "timestamp": 9, "hash": h, "tx_idx": 0, "inscription_id": "c09-mid"}));
                     open_block = Some((9, h, 1));
                 }
@@ -381,7 +381,7 @@ fn fuzz(ctx: &WorkerCtx, rep: &mut WorkerReport, rng: &mut Rng, state: &'static 
     let probe_every = if ctx.thorough() { 3 } else { 4 };
     for k in 0..nreq {
         fz.st.n += 1;
-        fz.st.fresh_hash = format!("0x{:064x}", 0xf09_0000u64 + fz.st.n);
+        fz.st.fresh_hash = crate::hist::bh((0xf09_0000u64 + fz.st.n) as u64);
         // choose a request
         let (method, params, mclass): (String, Value, &str) = match rng.below(10) {
             0 | 1 => {
@@ -636,7 +636,7 @@ fn http_sample(ctx: &WorkerCtx, rep: &mut WorkerReport, rng: &mut Rng, btc: &str
     let names = ["eth_call", "eth_getLogs", "brc20_deploy", "brc20_transact", "eth_getStorageAt", "eth_callMany", "brc20_mine", "web3_sha3"];
     for i in 0..40u64 {
         let m = rng.pick(&names).to_string();
-        let st = Tmpl { tool: "0x00000000000000000000000000000000000000aa".into(), tx_hash: hist::ZERO_HASH.into(), block_hash: hist::ZERO_HASH.into(), fresh_hash: format!("0x{:064x}", 0x477_0000u64 + i), raw_tx: "0x".into(), next_height: 0, n: i };
+        let st = Tmpl { tool: "0x00000000000000000000000000000000000000aa".into(), tx_hash: hist::ZERO_HASH.into(), block_hash: hist::ZERO_HASH.into(), fresh_hash: crate::hist::bh((0x477_0000u64 + i) as u64), raw_tx: "0x".into(), next_height: 0, n: i };
         let base = template(&m, &st).unwrap_or(json!([]));
         let p = mutate_value(rng, &base, 0);
         let p = if m == "brc20_mine" { json!({"block_count": rng.below(3), "timestamp": 1}) } else { p };
